@@ -17,7 +17,7 @@ LEVEL = 'model_checking'
 TECHNIQUE = ('bounded exhaustive enumeration of the (source kind, target mode, layout, operand form, copy) coercion matrix on the real '
              'as_()/FST(node, mode)/put code, judged by re-parsing in the requested mode, token-level leaf conservation and '
              'differential route equality')
-LEVEL_TEXT = ('every witness (94 source witnesses x 4 layouts) x every target (45 parse modes + 60 AST types) x 3 operand forms x copy modes is '
+LEVEL_TEXT = ('every witness (590 source witnesses x 4 layouts) x every target (45 parse modes + 60 AST types) x 3 operand forms x copy modes is '
               'executed on the real code; each result is checked to be a root of the requested kind that re-parses in that mode to '
               'itself, to conserve the operand\'s leaves in order, to agree between the formatted and the pure-AST route and to '
               'leave the operand untouched in copy mode; put-with-coercion is compared with put of the explicitly coerced node')
